@@ -280,3 +280,21 @@ def c06(run):
     run.assumptions += [BOUNDED, STD_GUARD,
                         "front and back steps are mixed only for one-character delimiters (std is double-ended only "
                         "there); rsplit_terminator's mirrored rule is the specification's own reference"]
+
+
+# ------------------------------------------------------------------------------------------- C12
+@check("C12", rule="one case = (type, string); strings: all token strings up to a bound over {0,1,2,5,9,-,+,a,' ', "
+                    "non-ASCII digit}, every value 0..300 (quick) in 7 textual forms, ~600 generated strings "
+                    "around MAX / MAX_POS / |MIN| of every width; each case runs the prefix parser, the HasParser "
+                    "dispatch with a base offset and the whole-string function; non-trivial = contains a digit")
+def c12(run):
+    q = run.tier == "quick"
+    out = vec("C12-ParseInt.ndjson")
+    run.mc("MC_ParseInt", "ParseInt.quick.cfg" if q else "ParseInt.thorough.cfg", env={"OUT": out},
+           need_actions=("Sign", "FirstDigit", "DigitStep", "ApplySign"), heap="8g", timeout=3000)
+    run.sample_file(out)
+    run.replay([out], "ParseInt vectors")
+    run.record_and_validate("ParseInt", "Trace_ParseInt", "Trace_ParseInt.cfg", n_files=4 if q else 16,
+                            n_events=4000 if q else 15000)
+    run.assumptions += [BOUNDED, STD_GUARD, "numbers are decimal digit sequences in the specification (exact for "
+                        "128-bit types); usize/isize are taken as 64-bit"]
